@@ -549,6 +549,12 @@ def _reply(run, F, PV):
                 facts = {f.text() for f in F.local(m, pc, rn)}
                 run.check("R5", "sign_result[0]" in facts, f"{pc.name}: signature returned only on success", key=f"{pc.name}._sign|reply-guard", where=m.loc(r),
                           message=f"{pc.name}._sign can return a signature although the dongle reported failure")
+    signature_parser(run, F, PV, "R5")
+
+
+def signature_parser(run, F, PV, rid="R5"):
+    """DER slicing rules of HSM2DongleSignature (shared with C13 under a prefix)."""
+    P, A = run.P, run.A
     S = P.cls("ledger.signature.HSM2DongleSignature")
     ini = P.method(S, "__init__")
     g = A.cfg(ini, S)
@@ -561,17 +567,17 @@ def _reply(run, F, PV):
             for dn in g.nodes_of(ds[0]):
                 got = {_strip(x) for x in PV.expand_consistent(ini, S, ds[0].value, dn)}
                 ok = got == {_strip(w)}
-        run.check("R5", ok, f"{nm} slice", key=f"HSM2DongleSignature|{nm}", where=ini.loc(), message=f"{nm} is not `{w}`")
+        run.check(rid, ok, f"{nm} slice", key=f"HSM2DongleSignature|{nm}", where=ini.loc(), message=f"{nm} is not `{w}`")
     st = {norm(n.targets[0]): norm(n.value) for n in A.own_nodes(ini) if isinstance(n, ast.Assign) and norm(n.targets[0]).startswith("self.")}
-    run.check("R5", st == {"self._r": "rbytes.hex()", "self._s": "sbytes.hex()"}, "r/s stored as hex of their slices", key="HSM2DongleSignature|stores",
+    run.check(rid, st == {"self._r": "rbytes.hex()", "self._s": "sbytes.hex()"}, "r/s stored as hex of their slices", key="HSM2DongleSignature|stores",
               where=ini.loc(), message=f"HSM2DongleSignature stores {st}")
     for prop, fld in (("r", "_r"), ("s", "_s")):
         pf = P.method(S, prop)
         rr = [n for n in A.own_nodes(pf) if isinstance(n, ast.Return)]
-        run.check("R5", len(rr) == 1 and norm(rr[0].value) == f"self.{fld}", f"property {prop}", key=f"HSM2DongleSignature.{prop}|getter", where=pf.loc(),
+        run.check(rid, len(rr) == 1 and norm(rr[0].value) == f"self.{fld}", f"property {prop}", key=f"HSM2DongleSignature.{prop}|getter", where=pf.loc(),
                   message=f"HSM2DongleSignature.{prop} does not return self.{fld} (r and s swapped?)")
     ef = {f.text() for f in F.exit_facts(ini, S)}
     for w in (f"len({b}) >= 2", f"{b}[0] in [48, 49]", f"len({b}[2:]) >= {b}[1]", f"{b}[2] == 2", f"len({b}[4:]) >= {b}[3]",
               f"{b}[4 + r_len] == 2", f"len({b}[6 + r_len:]) >= {b}[5 + r_len]"):
-        run.check("R5", w in ef, f"DER check `{w}`", key=f"HSM2DongleSignature|check|{w}", where=ini.loc(),
+        run.check(rid, w in ef, f"DER check `{w}`", key=f"HSM2DongleSignature|check|{w}", where=ini.loc(),
                   message=f"the DER parser no longer requires `{w}`")
